@@ -18,6 +18,15 @@ PROPS = {
     },
 }
 
+PROPS["C05"] = {
+    "suites": [{"name": "archive-ops", "shards": 8}],
+    "rule": "archive-ops: the real NonDominanceModelArchive is fed CompressedModelStates built directly; (i) exhaustive protocol histories (offer; offer+force-when-refused-as-dominated) of length <=2 quick / <=4 thorough over a 3x3 value grid x 3 action sets plus a random sample of length 3..5, (ii) random histories of 150..2400 ops in 1..8 dimensions with 1..130 action bits, tie-heavy pools, consistent (action set determines vector) and inconsistent streams, a misuse stream with arbitrary forces, SelectRandomIsolatedModel permutations. One evaluation = one archive operation; compared with the model: result code + archive contents in order (length, order-sensitive hash, full contents when <=6 members). Direct checks on the implementation after every op: pairwise non-dominance, no duplicate action sets, refusal reasons, stored-candidate presence, exact eviction sets, Pareto-front equality against a quadratic reference for offer-only histories. distinct = distinct (archive contents, operation) pairs; non-trivial = anything other than a first store into an empty archive.",
+    "trusted": ["finite float64 objective values embedded into Int by the monotone key map (as C17)", "Consistent (equal action sets carry equal vectors) is a hypothesis of pareto_front/protocol_inv; in the real system it is property C01"],
+    "assumptions": ["all vectors of one history have one dimension (they are the model's decision variables)", "the explorer only forces candidates the archive has just refused as dominated (checked on real runs by the suppa-runs suite of C06)"],
+    "level_text": "Unbounded proof: invariant preservation (attempt_inv, force_inv_after_refusal, protocol_inv by induction over every protocol history), truthful refusal reasons, exact eviction sets, and pareto_front (for EVERY offer sequence the archive is exactly the Pareto-optimal subset of the offers) are Lean theorems about a transcription of AttemptToArchiveState/ForceModelStateIntoArchive instantiated with the C17 dominance model; tied to the Go archive by differential runs (exhaustive short histories + long random ones) on every check.",
+    "level_note": "Trusted: Lean kernel, float->Int embedding, harness/driver. The last sentence of the property (reported members' values are the model's values at that action set) is decided by the suppa-runs suite with C01/C09, not by an archive theorem.",
+}
+
 # properties not (yet) claimed, with the reason; kept current as checks are added
 NOT_APPLICABLE = {
 }
